@@ -207,7 +207,7 @@ def a_worker_reported_exceptional_is_closed_alone_and_the_io_loop_goes_on(b):
   """added 2026-09-25 after seeded change C10_9 removed an exceptional worker from the readable list unconditionally: a socket
   that is exceptional but NOT readable in the same round (urgent data only) raised ValueError inside the loop, whose own
   `except BaseException: break` then ended the switch's whole I/O loop"""
-  tr, pinger, outs, datas, olds, socks, ws, loop = env(b)
+  tr, pinger, outs, datas, olds, socks, ws, loop = env(b, pending=(b"queued", b""))
   A, B = ws
   a_readable, a_writable = b.bool("A_also_readable"), b.bool("A_also_writable")
   b.set(socks[1], "outcome", "data")
@@ -220,16 +220,18 @@ def a_worker_reported_exceptional_is_closed_alone_and_the_io_loop_goes_on(b):
     ended = False
     y1 = None
     try:
-      y1 = select_sets(g.send((r, [], [A])))
+      y1 = select_sets(g.send((r, [A] if a_writable else [], [A])))
     except StopIteration:
       ended = True
-    return (ended, y1, A.closed, B.closed, [e for e in tr.log if e[0] in ("recv", "closed", "rx")])
+    return (ended, y1, A.closed, B.closed, [e for e in tr.log if e[0] in ("recv", "closed", "rx", "send")])
   return Case(run, [loop, ws], raises={}, ensures={
     "the_io_loop_goes_on": lambda res: res[0] is False and res[1] is not None,
-    "the_exceptional_worker_is_closed_once_and_never_read": lambda res: res[2] is True and res[3] is False
+    "the_exceptional_worker_is_closed_once_and_neither_read_nor_written_to": lambda res: res[2] is True and res[3] is False
       and [e for e in res[4] if e[1] == "A"] == [("closed", "A")],
     "the_other_worker_is_read_as_reported": lambda res: [e for e in res[4] if e[1] == "B"] == [("recv", "B"), ("rx", "B", olds[1] + datas[1])],
     "it_is_no_longer_watched": lambda res: same_members(res[1][0], [B, pinger]),
   })
 a_worker_reported_exceptional_is_closed_alone_and_the_io_loop_goes_on.bound = \
-  "two workers; one reported exceptional (readable as well or not), the other readable"
+  "two workers; one (with queued bytes) reported exceptional - readable and / or writable as well, or neither -, the other readable"
+unit("C20", target=IO + "RecocoIOLoop.run (exceptional condition)",
+     name="an_exceptional_worker_is_not_written_to_after_it_was_closed")(a_worker_reported_exceptional_is_closed_alone_and_the_io_loop_goes_on)
